@@ -27,20 +27,21 @@ SG = ["_GET", "_POST", "_COOKIE", "_SERVER", "_REQUEST", "_REQUESTP", "_REQUESTC
 PRIV = ["rquery", "rheader", "local", "arr", "obj", "clo", "loop"]
 
 
-def coq_prog(segs, mw=0, mwsg=False):
+def coq_prog(segs, mw=0, mwsg=False, quiet=False):
     if mwsg:
         # the outermost middleware parks at a gate and then reads $_GET before $next: one more segment in front
-        return coq_prog([["_GET"]] + [list(x) for x in segs], mw)
-    return _coq_prog(segs, mw)
+        return coq_prog([["_GET"]] + [list(x) for x in segs], mw, False, quiet)
+    return _coq_prog(segs, mw, quiet)
 
 
-def _coq_prog(segs, mw=0):
+def _coq_prog(segs, mw=0, quiet=False):
     # the handler sets status and the X-Id header from locals after its last read: two more private reads;
     # each middleware in front of it sets a header from the request object before $next and writes to the body
     # after it: two more request-object reads per middleware
     segs = [list(s) for s in segs]
     body = [coq_list("(%s)" % RD[x] for x in s) for s in segs[:-1]]
-    body.append(coq_list(["(%s)" % RD[x] for x in segs[-1]] + ["RLocal", "RLocal"] + ["RObj", "RObj"] * mw))
+    # quiet handler: each middleware also sets a header from its local AFTER $next: a third private read
+    body.append(coq_list(["(%s)" % RD[x] for x in segs[-1]] + ["RLocal", "RLocal"] + ["RObj"] * ((3 if quiet else 2) * mw)))
     return coq_list(body)
 
 
@@ -54,7 +55,7 @@ def owner(v):
     return int(v) if v.isdigit() else None
 
 
-def observed(segs, resp, mw=0, mwsg=False):
+def observed(segs, resp, mw=0, mwsg=False, quiet=False):
     vals = [owner(resp.get("mwg"))] if mwsg else []
     for k, seg in enumerate(segs):
         for j, _ in enumerate(seg):
@@ -65,6 +66,9 @@ def observed(segs, resp, mw=0, mwsg=False):
         hdrs = resp.get("mw") or []
         vals.append(owner(hdrs[j]) if j < len(hdrs) else None)
         vals.append(owner(resp["fields"].get("m%db" % j)))
+        if quiet:
+            ha = resp.get("mwa") or []
+            vals.append(owner(ha[j]) if j < len(ha) else None)
     return vals
 
 
@@ -72,8 +76,9 @@ def coq_obs(vals):
     return coq_list("None" if v is None else "(Some %d)" % v for v in vals)
 
 
-def kinds_of(segs, mw=0, mwsg=False):
-    return (["_GET"] if mwsg else []) + [x for s in segs for x in s] + ["status", "header"] + [k for j in range(mw) for k in ("mw-header", "mw-body")]
+def kinds_of(segs, mw=0, mwsg=False, quiet=False):
+    return (["_GET"] if mwsg else []) + [x for s in segs for x in s] + ["status", "header"] + \
+        [k for j in range(mw) for k in (("mw-header", "mw-after-next-marker", "mw-after-next-header") if quiet else ("mw-header", "mw-body"))]
 
 
 def contiguous(order, i):
@@ -82,13 +87,13 @@ def contiguous(order, i):
     return bool(pos) and pos[-1] - pos[0] + 1 == len(pos)
 
 
-def foreign_keys(segs, i, vals, window=False, mw=0, mwsg=False):
+def foreign_keys(segs, i, vals, window=False, mw=0, mwsg=False, quiet=False):
     """for request i (1-based): (kind, shape) of every read that returned foreign data;
     shape = first-read-foreign | changed-between-reads (the same superglobal answered with the request's own
     data earlier in this request)"""
     res = []
     seen_own = set()
-    for kind, v in zip(kinds_of(segs, mw, mwsg), vals):
+    for kind, v in zip(kinds_of(segs, mw, mwsg, quiet), vals):
         g = GLOBAL_OF.get(kind)
         if v == i:
             if g:
@@ -135,6 +140,19 @@ def gated_cases(rng, tier):
                 cases.append({"segs": prog, "nreq": 2, "schedule": list(sch), "route": "mux", "mw": mw, "group": group, "warmup": True, "gen": "middleware-2x2"})
             for sch in ([0, 0, 1, 1, 1, 2, 2, 2, 0], [0, 1, 2, 2, 1, 0, 0, 1, 2], [2, 2, 0, 0, 0, 1, 1, 2, 1]):
                 cases.append({"segs": prog, "nreq": 3, "schedule": sch, "route": "mux", "mw": mw, "group": group, "warmup": True, "gen": "middleware-parked"})
+    # what a middleware does to $response and with its locals AFTER $next (a header from a local, then a marker): the
+    # handler is quiet (no body write, pending status) so that nothing is committed before the middlewares return.
+    # Shapes: every interleaving of two requests; A parked inside the handler while B (and C) pass through the same
+    # chain completely, then A resumes; the same with a parked-in-the-middleware gate in front ($next called with
+    # whatever $r/$w the middleware's frame holds at that time)
+    for mw, group in ((1, False), (2, False), (2, True)):
+        for prog in ([["local", "rquery"], ["arr", "obj"]], [["_GET", "local"], ["rheader"]]):
+            for sch in interleavings([3, 3]):
+                cases.append({"segs": prog, "nreq": 2, "schedule": list(sch), "route": "mux", "mw": mw, "group": group, "warmup": mw == 1, "quiet": True, "gen": "middleware-after-2x2"})
+            for sch in ([0, 0, 1, 1, 1, 2, 2, 2, 0], [0, 1, 1, 1, 0, 2, 2, 2, 0], [0, 1, 2, 2, 2, 1, 1, 0, 0]):
+                cases.append({"segs": prog, "nreq": 3, "schedule": sch, "route": "mux", "mw": mw, "group": group, "warmup": True, "quiet": True, "gen": "middleware-after-parked"})
+    for sch in interleavings([4, 4]):
+        cases.append({"segs": [["local"], ["rquery"]], "nreq": 2, "schedule": list(sch), "route": "mux", "mw": 1, "mwsg": True, "quiet": True, "gen": "middleware-after-sg"})
     # a middleware that reads $_GET BEFORE $next (after a gate): serial orders (must be clean: the reset happens at the
     # entry of the outermost layer) and every interleaving of two requests (stages: entry, mw read + handler segment 1, ...)
     for mw in (1, 2):
@@ -204,9 +222,41 @@ def load_cases(rng, tier):
 
 
 def run(cmd, lines, timeout=900):
-    p = subprocess.run(cmd, input="\n".join(json.dumps(c) for c in lines) + "\n", stdout=subprocess.PIPE, stderr=subprocess.PIPE,
-                       text=True, timeout=timeout)
+    try:
+        p = subprocess.run(cmd, input="\n".join(json.dumps(c) for c in lines) + "\n", stdout=subprocess.PIPE, stderr=subprocess.PIPE,
+                           text=True, timeout=timeout)
+    except subprocess.TimeoutExpired as e:
+        so = e.stdout.decode("utf-8", "replace") if isinstance(e.stdout, bytes) else (e.stdout or "")
+        outs = []
+        for l in so.splitlines():
+            try:
+                outs.append(json.loads(l))
+            except ValueError:
+                break
+        return outs, -9, "engine timed out after %ds; %d results" % (timeout, len(outs))
     return [json.loads(l) for l in p.stdout.splitlines() if l.strip()], p.returncode, p.stderr
+
+
+SKIPPED = {}
+
+
+def stuck(ck, c, o, what):
+    """the engine's per-step watchdog: a released request neither reached its next gate nor finished within step_ms.
+    Reported with the case (the interleaving is the replay); a family's cases after its third deadlock are skipped."""
+    if "skipped" in o:
+        SKIPPED[c.get("gen", "?")] = SKIPPED.get(c.get("gen", "?"), 0) + 1
+        return True
+    if "deadlock" not in o:
+        return False
+    d = o["deadlock"]
+    # a request that passed its own gate but turned up at ANOTHER request's gate: it is running with foreign data
+    shape = "foreign-gate" if d.get("unexpected_arrivals") else "no-progress"
+    rep = {"case": {k: c[k] for k in ("segs", "nreq", "schedule", "route", "mw", "mwsg", "group", "warmup", "quiet", "yields", "gen") if k in c},
+           "executed_order": o.get("order"), "deadlock": d, "finished_responses": o.get("finished"),
+           "clause": "private_state_isolated / every request is answered: released request %s (stage %s) neither reached a gate of its own nor "
+                     "finished within %s ms; arrivals at other requests' gates: %s" % (d.get("released"), d.get("stage_before"), d.get("after_ms"), d.get("unexpected_arrivals"))}
+    ck.violation("deadlock:%s:%s:%s" % (what, c.get("gen", "?"), shape), rep)
+    return True
 
 
 SG_FRAMES = ("node.ResetSuperglobals", "node.(*GetVariable).GetValue", "node.(*PostVariable).GetValue",
@@ -241,25 +291,32 @@ def main(ck):
     gouts, rc, err = run([binary, "gated"], gcases)
     if len(gouts) != len(gcases):
         ck.log("gated engine returned %d results for %d cases rc=%d\n%s" % (len(gouts), len(gcases), rc, err[-2000:]))
+        if len(gouts) < len(gcases):
+            # the case the engine was busy with when it died / timed out is the replay
+            ck.violation("impl-error:engine-%s" % ("timeout" if rc == -9 else "died"), {"case": gcases[len(gouts)], "impl_out": err[-1500:],
+                                                                                        "clause": "the engine did not answer this case"})
         ck.broken.append("harness-run")
         ck.finish(evaluations=len(gouts), distinct_nontrivial=0, rule="harness crashed")
     terms, idx = [], []
     for i, (c, o) in enumerate(zip(gcases, gouts)):
+        if stuck(ck, c, o, "gated"):
+            continue
         if "err" in o or any(r.get("panic") for r in o["resps"]):
             ck.violation("impl-error:gated", {"case": c, "impl_out": o})
             continue
-        obs = [observed(c["segs"], r, c.get("mw", 0), c.get("mwsg", False)) for r in o["resps"]]
+        q = c.get("quiet", False)
+        obs = [observed(c["segs"], r, c.get("mw", 0), c.get("mwsg", False), q) for r in o["resps"]]
         c["_obs"] = obs
-        if c.get("warmup") and o.get("warmup") and any(v != 99 for v in observed(c["segs"], o["warmup"], c.get("mw", 0), c.get("mwsg", False))):
+        if c.get("warmup") and o.get("warmup") and any(v != 99 for v in observed(c["segs"], o["warmup"], c.get("mw", 0), c.get("mwsg", False), q)):
             ck.violation("private:warmup-response", {"case": c, "impl_out": o["warmup"], "clause": "a request served alone gets its own response"})
-        terms.append("(%s, %d, %s, %s)" % (coq_prog(c["segs"], c.get("mw", 0), c.get("mwsg", False)), c["nreq"], coq_list(str(x) for x in o["order"]),
+        terms.append("(%s, %d, %s, %s)" % (coq_prog(c["segs"], c.get("mw", 0), c.get("mwsg", False), q), c["nreq"], coq_list(str(x) for x in o["order"]),
                                             coq_list(coq_obs(v) for v in obs)))
         idx.append(i)
     bad = ck.eval_cases("gcases", HEADER, terms, "check_case", shard=200)
     interfering = 0
     for j, cls in sorted(bad.items(), key=lambda kv: len(gcases[idx[kv[0]]]["schedule"])):
         c, o = gcases[idx[j]], gouts[idx[j]]
-        rep = {"case": {k: c[k] for k in ("segs", "nreq", "schedule", "route", "mw", "mwsg", "group", "warmup") if k in c}, "executed_order": o["order"], "impl_out": o["resps"], "clauses": cls}
+        rep = {"case": {k: c[k] for k in ("segs", "nreq", "schedule", "route", "mw", "mwsg", "group", "warmup", "quiet", "gen") if k in c}, "executed_order": o["order"], "impl_out": o["resps"], "clauses": cls}
         if 1 in cls:
             ck.broken.append("correspondence:C11.gated")
             ck.violation("tie:gated", dict(rep, clause="model vs implementation (tie)"))
@@ -267,7 +324,7 @@ def main(ck):
             interfering += 1
             keys = set()
             for ri, vals in enumerate(c["_obs"]):
-                for kind, name, shape in foreign_keys(c["segs"], ri + 1, vals, contiguous(o["order"], ri), c.get("mw", 0), c.get("mwsg", False)):
+                for kind, name, shape in foreign_keys(c["segs"], ri + 1, vals, contiguous(o["order"], ri), c.get("mw", 0), c.get("mwsg", False), c.get("quiet", False)):
                     keys.add("private:%s" % name if kind == "private" else "sg:%s:%s" % (name, shape))
             for k in sorted(keys):
                 ck.violation(k, dict(rep, clause="private_state_isolated" if k.startswith("private") else "superglobals_isolated (refuted: overlapping requests)"))
@@ -283,6 +340,8 @@ def main(ck):
         ck.finish(evaluations=len(fouts), distinct_nontrivial=0, rule="harness crashed")
     fterms, fidx = [], []
     for i, (c, o) in enumerate(zip(fcases, fouts)):
+        if stuck(ck, c, o, "gated-yields"):
+            continue
         if "err" in o or any(r.get("panic") == "timeout" for r in o["resps"]):
             ck.violation("impl-error:gated-yields", {"case": c, "impl_out": o})
             continue
@@ -338,6 +397,8 @@ def main(ck):
     oouts, rc, err = run([binary, "gated"], ocases) if ocases else ([], 0, "")
     ob_foreign = 0
     for c, o in zip(ocases, oouts):
+        if stuck(ck, c, o, "ob"):
+            continue
         if "err" in o or any(r.get("panic") for r in o["resps"]):
             ck.violation("impl-error:ob", {"case": c, "impl_out": o})
             continue
@@ -360,6 +421,7 @@ def main(ck):
                              dict(rep, clause="the body a handler produces equals what it produces alone (ob_get_clean returned another request's output)"))
             if owner(r["fields"].get("s1r1")) != i + 1 or r.get("status") != 200 + i + 1:
                 ck.violation("private:ob-case", dict(rep, clause="private_state_isolated"))
+    ck.cov["cases_skipped_after_three_deadlocks_of_their_family"] = dict(SKIPPED)
     ck.cov["ob_cases"] = len(ocases)
     ck.cov["ob_cases_foreign_reads"] = ob_foreign
 
